@@ -26,6 +26,8 @@ EXTENDS HQ
 CONSTANTS
   WorkerCpus,      \* [w -> cpus]  (1/10000 units) workers connected from the start
   WorkerGroup,     \* [w -> group name]
+  WorkerLife,      \* [w -> life time in hours, -1 = unlimited]
+  MaxTicks,        \* number of hours that may pass
   Menu,            \* Seq of submits: [job, tasks : Seq([id, deps, rq, prio]), climit, maxFails]
   OpenJobs,        \* [j -> job failure limit] : jobs created by `job open`; a menu entry naming such a job is attached to it
   Classes,         \* the `classes` value (Seq of Seq of variants)
@@ -463,13 +465,13 @@ Init ==
   /\ queue = [rq \in 0..(Len(Classes) - 1) |-> [ready |-> {}, hasPrefill |-> FALSE, pprio |-> -1, pset |-> {}]]
   /\ srv = [w \in DOMAIN WorkerCpus |-> [kind |-> "sn", assigned |-> {}, prefilled |-> {}, free |-> <<WorkerCpus[w]>>, total |-> <<WorkerCpus[w]>>,
                                           blocked |-> {}, stopping |-> FALSE, group |-> WorkerGroup[w], mn |-> 0, root |-> FALSE]]
-  /\ wk = [w \in DOMAIN WorkerCpus |-> [running |-> {}, backlog |-> {}, blocked |-> {}, s2w |-> <<>>, w2s |-> <<>>, stopped |-> FALSE, remaining |-> -1]]
+  /\ wk = [w \in DOMAIN WorkerCpus |-> [running |-> {}, backlog |-> {}, blocked |-> {}, s2w |-> <<>>, w2s |-> <<>>, stopped |-> FALSE, remaining |-> WorkerLife[w]]]
   /\ wkq = [w \in DOMAIN WorkerCpus |-> [rq \in 0..(Len(Classes) - 1) |-> <<>>]]
   /\ fut = {} /\ job = <<>> /\ streams = <<>> /\ now = 0 /\ classes = Classes
   /\ tinfo = <<>> /\ hist = <<>> /\ wstarts = <<>> /\ ranOk = {} /\ tstops = {} /\ cancelAck = <<>> /\ wCancel = {} /\ gaveBack = {}
   /\ nCompleted = <<>> /\ mustCrash = <<>> /\ mayCrash = <<>> /\ exceeded = {}
   /\ panic = "" /\ submitted = {} /\ armedFail = {} /\ drift = {} /\ journal = <<>> /\ late = {}
-  /\ budget = [losses |-> MaxLosses, cancels |-> MaxCancels, fails |-> MaxFails, launchFails |-> MaxLaunchFails]
+  /\ budget = [losses |-> MaxLosses, cancels |-> MaxCancels, fails |-> MaxFails, launchFails |-> MaxLaunchFails, ticks |-> MaxTicks]
 
 unchangedWorkerSide == UNCHANGED <<wkq, fut, wstarts, ranOk, tstops, wCancel, gaveBack, armedFail>>
 unchangedStatic == UNCHANGED <<streams, now, classes>>
@@ -485,7 +487,7 @@ ClientSubmit(i) ==
          ids == [k \in DOMAIN s.tasks |-> j * 1000 + s.tasks[k].id]
          ni == [t \in SeqSet(ids) |->
                   LET x == CHOOSE x \in SeqSet(s.tasks) : j * 1000 + x.id = t IN
-                  [job |-> j, deps |-> {j * 1000 + d : d \in x.deps}, prio |-> x.prio, rq |-> x.rq, climit |-> s.climit, tlimit |-> 0, maxFails |-> mf]]
+                  [job |-> j, deps |-> {j * 1000 + d : d \in x.deps}, prio |-> x.prio, rq |-> x.rq, climit |-> s.climit, tlimit |-> s.tlimit, maxFails |-> mf]]
          jb == IF attach THEN [job[j] EXCEPT !.n = @ + Len(ids), !.tasks = [t \in SeqSet(ids) |-> "Waiting"] @@ @]
                ELSE [open |-> FALSE, completed |-> FALSE, n |-> Len(ids), maxFails |-> mf,
                      cnt |-> [running |-> 0, finished |-> 0, failed |-> 0, canceled |-> 0, aborted |-> 0],
@@ -601,6 +603,7 @@ ApplyMn(C, mn) ==
 Fits(m) == \* m : [taken tasks -> <<worker, variant>>]
   /\ \A t \in DOMAIN m : LET w == m[t][1]  v == m[t][2] IN
         /\ v < Len(classes[task[t].rq + 1])
+        /\ LifetimeCovers(w, task[t].rq, v)
         /\ srv[w].kind = "sn" /\ ~srv[w].stopping /\ <<task[t].rq, v>> \notin srv[w].blocked /\ TotalCovers(w, task[t].rq, v)
         /\ ~IsMn(task[t].rq)
   /\ \A w \in {x \in DOMAIN srv : srv[x].kind = "sn"} : \A r \in 1..NRes(w) :
@@ -612,7 +615,7 @@ MaximalChoice(ch, m) ==
   \A rq \in {x \in DOMAIN queue : ~IsMn(x)} :
      ch[rq][2] < Cardinality(queue[rq].ready \cup queue[rq].pset) =>
        ~\E w \in DOMAIN srv :
-           /\ srv[w].kind = "sn" /\ ~srv[w].stopping /\ <<rq, 0>> \notin srv[w].blocked /\ TotalCovers(w, rq, 0)
+           /\ srv[w].kind = "sn" /\ ~srv[w].stopping /\ <<rq, 0>> \notin srv[w].blocked /\ TotalCovers(w, rq, 0) /\ LifetimeCovers(w, rq, 0)
            /\ \A r \in 1..NRes(w) :
                  SumOver({t \in DOMAIN m : m[t][1] = w}, LAMBDA t : ReqAmount(task[t].rq, m[t][2], r, w)) + ReqAmount(rq, 0, r, w) <= srv[w].free[r]
 
@@ -715,7 +718,7 @@ Schedule ==
 -----------------------------------------------------------------------------
 (* Server receives the next message of worker w *)
 SrvRecv(w) ==
-  /\ panic = "" /\ w \in DOMAIN wk /\ wk[w].w2s # <<>>
+  /\ panic = "" /\ w \in DOMAIN wk /\ wk[w].w2s # <<>> /\ Head(wk[w].w2s).k # "WStop"
   /\ LET m == Head(wk[w].w2s)
          r == IF m.k = "Update" THEN OnTaskUpdate(CoreRec, JobRec, w, m.ups)
               ELSE <<OnRetractResponse(CoreRec, w, m.ids), JobRec>>
@@ -730,12 +733,15 @@ SrvRecv(w) ==
 AllocFor(rq, v, w) == <<[r |-> 0, amount |-> ReqAmount(rq, v, 1, w), idx |-> <<>>]>>
 WFreeOf(W, w) == srv[w].total[1] - SumOver(W.running, LAMBDA x : AllocAmount(x.alloc, 1))
 WRec(w) == [running |-> wk[w].running, wq |-> wkq[w], blocked |-> wk[w].blocked, cur |-> <<>>, msgs |-> <<>>, starts |-> <<>>, stops |-> <<>>,
-            fut |-> fut, armed |-> armedFail, ok |-> TRUE, used |-> FALSE]
+            fut |-> fut, armed |-> armedFail, ok |-> TRUE, used |-> FALSE, rem |-> wk[w].remaining]
 Flush(W) == IF W.cur = <<>> THEN W ELSE [W EXCEPT !.msgs = Append(@, [k |-> "Update", ups |-> W.cur]), !.cur = <<>>]
 
 \* try_start_task (launch failures come from armedFail)
 WStart(W, w, t, inst, rq, v, prefilled) ==
-  IF t \in W.armed THEN
+  IF W.rem >= 0 /\ W.rem < Variant(rq, v).min_time THEN
+     \* hard reject: the remaining life time of the worker does not cover the time request (never unblocked)
+     [W EXCEPT !.cur = Append(@, [k |-> "Reject", t |-> t, v |-> v]), !.ok = FALSE]
+  ELSE IF t \in W.armed THEN
      [W EXCEPT !.cur = Append(@, [k |-> "Failed", t |-> t, cls |-> "launch"]), !.armed = @ \ {t},
                !.starts = Append(@, [w |-> w, t |-> t, inst |-> inst, ok |-> FALSE, pf |-> prefilled]), !.ok = FALSE]
   ELSE [W EXCEPT !.running = @ \cup {[t |-> t, inst |-> inst, v |-> v, rq |-> rq, alloc |-> AllocFor(rq, v, w)]},
@@ -781,7 +787,7 @@ WCommit(W, w, newS2w) ==
   /\ tstops' = tstops \cup SeqSet(W.stops)
 
 WkRecv(w) ==
-  /\ panic = "" /\ w \in DOMAIN wk /\ wk[w].s2w # <<>>
+  /\ panic = "" /\ w \in DOMAIN wk /\ wk[w].s2w # <<>> /\ ~wk[w].stopped
   /\ LET m == Head(wk[w].s2w)
          rest == Tail(wk[w].s2w)
      IN CASE m.k = "Compute" ->
@@ -828,6 +834,63 @@ ArmLaunchFail(t) ==
   /\ UNCHANGED <<vars, panic, wkq, submitted, drift, journal, late>>
 
 -----------------------------------------------------------------------------
+(* Time.  One hour passes: task time limits expire (the execution is told to stop and ends failed), the periodic check of *)
+(* every worker gives back the pre-sent tasks whose time request its remaining life no longer covers, and a worker whose *)
+(* life is over drops its backlog, stops its tasks and announces its stop.                                              *)
+TimeTick ==
+  /\ panic = "" /\ budget.ticks > 0
+  /\ LET now2 == now + 1
+         Rem2(w) == IF wk[w].remaining <= 0 \/ wk[w].stopped THEN wk[w].remaining ELSE wk[w].remaining - 1
+         StepW(A, w) ==
+           LET W0 == [running |-> wk[w].running, wq |-> wkq[w], blocked |-> wk[w].blocked, cur |-> <<>>, msgs |-> <<>>, starts |-> A.starts, stops |-> A.stops,
+                      fut |-> A.fut, armed |-> A.armed, ok |-> TRUE, used |-> FALSE, rem |-> Rem2(w)]
+               \* (a) executions whose time limit is over
+               over == SetToSortSeq({x \in W0.running : tinfo[x.t].tlimit > 0 /\
+                                      \E i \in DOMAIN wstarts[x.t] : wstarts[x.t][i].w = w /\ wstarts[x.t][i].inst = x.inst /\ wstarts[x.t][i].ok
+                                                                       /\ now2 - wstarts[x.t][i].now >= tinfo[x.t].tlimit},
+                                    LAMBDA a, b : a.t < b.t)
+               W1 == FoldSeqLeft(LAMBDA WW, x : WTaskEnd([WW EXCEPT !.stops = Append(@, [t |-> x.t, w |-> w, inst |-> x.inst, reason |-> "timeout"])], w, x, "Failed"),
+                                 W0, over)
+               \* (b) retract check of the backlog
+               short == {rq \in DOMAIN W1.wq : W1.wq[rq] # <<>> /\ W1.rem >= 0 /\ W1.rem < Min({Variant(rq, v - 1).min_time : v \in DOMAIN classes[rq + 1]})}
+               rejs == FoldSeqLeft(LAMBDA acc, rq : acc \o [i \in DOMAIN W1.wq[rq] |-> [k |-> "Reject", t |-> W1.wq[rq][i].t, v |-> -1]], <<>>, SortedIds(short))
+               W2 == [W1 EXCEPT !.wq = [rq \in DOMAIN W1.wq |-> IF rq \in short THEN <<>> ELSE W1.wq[rq]],
+                                !.msgs = IF rejs = <<>> THEN @ ELSE Append(@, [k |-> "Update", ups |-> rejs])]
+               \* (c) end of life
+               ends == W2.rem = 0 /\ ~wk[w].stopped
+               W3 == IF ends THEN [W2 EXCEPT !.wq = [rq \in DOMAIN W2.wq |-> <<>>], !.running = {}, !.fut = {f \in @ : f.w # w},
+                                              !.stops = @ \o [i \in 1..Cardinality(W2.running) |->
+                                                  LET x == SetToSortSeq(W2.running, LAMBDA a, b : a.t < b.t)[i] IN [t |-> x.t, w |-> w, inst |-> x.inst, reason |-> "cancel"]],
+                                              !.msgs = Append(@, [k |-> "WStop"])]
+                     ELSE W2
+           IN [A EXCEPT !.wk[w] = [wk[w] EXCEPT !.running = W3.running,
+                                                 !.backlog = UNION {{W3.wq[rq][i].t : i \in DOMAIN W3.wq[rq]} : rq \in DOMAIN W3.wq},
+                                                 !.blocked = W3.blocked, !.w2s = @ \o W3.msgs, !.remaining = W3.rem,
+                                                 !.stopped = @ \/ ends],
+                         !.wkq[w] = W3.wq, !.fut = W3.fut, !.armed = W3.armed, !.starts = W3.starts, !.stops = W3.stops]
+         A2 == FoldSeqLeft(StepW, [wk |-> wk, wkq |-> wkq, fut |-> fut, armed |-> armedFail, starts |-> <<>>, stops |-> <<>>], SortedIds(DOMAIN wk))
+     IN /\ now' = now2
+        /\ wk' = A2.wk /\ wkq' = A2.wkq /\ fut' = A2.fut /\ armedFail' = A2.armed
+        /\ wstarts' = FoldSeqLeft(LAMBDA ws, x : [ws EXCEPT ![x.t] = Append(@, [w |-> x.w, inst |-> x.inst, ok |-> x.ok, now |-> now2, pf |-> x.pf])], wstarts, A2.starts)
+        /\ tstops' = tstops \cup SeqSet(A2.stops)
+  /\ budget' = [budget EXCEPT !.ticks = @ - 1]
+  /\ UNCHANGED <<coreVars, job, streams, classes, tinfo, hist, ranOk, cancelAck, wCancel, gaveBack, nCompleted, mustCrash, mayCrash, exceeded,
+                  panic, submitted, drift, journal, late>>
+
+\* the server reads the stop announcement of a worker: the worker is removed (not a failure)
+SrvRecvStop(w) ==
+  /\ panic = "" /\ w \in DOMAIN wk /\ wk[w].w2s # <<>> /\ Head(wk[w].w2s).k = "WStop"
+  /\ \E ord \in SetToSeqs(RunningOn(CoreRec, w)) :
+     LET r == OnRemoveWorker(CoreRec, JobRec, w, FALSE, ord)
+         C == r[1]
+     IN /\ Commit(C, r[2])
+        /\ wk' = [x \in DOMAIN wk \ {w} |-> [wk[x] EXCEPT !.s2w = @ \o C.out[x]]]
+        /\ wkq' = Without(wkq, w)
+        /\ fut' = {f \in fut : f.w # w}
+        /\ wCancel' = {p \in wCancel : p[1] # w} /\ gaveBack' = {p \in gaveBack : p[1] # w}
+  /\ UNCHANGED <<tinfo, submitted, cancelAck, wstarts, ranOk, tstops, armedFail, budget, mustCrash, mayCrash>> /\ unchangedStatic
+
+-----------------------------------------------------------------------------
 (* Worker loss (connection closed; fail = the loss counts as a crash of the tasks running there) *)
 LoseWorker(w, fail) ==
   /\ panic = "" /\ w \in DOMAIN srv /\ budget.losses > 0
@@ -853,10 +916,11 @@ Next ==
   \/ \E j \in DOMAIN job : ClientCancel(j)
   \/ \E j \in DOMAIN OpenJobs : ClientOpen(j) \/ ClientClose(j)
   \/ Schedule
-  \/ \E w \in DOMAIN wk : SrvRecv(w) \/ WkRecv(w)
+  \/ \E w \in DOMAIN wk : SrvRecv(w) \/ WkRecv(w) \/ SrvRecvStop(w)
   \/ \E f \in fut : TaskExit(f, TRUE) \/ TaskExit(f, FALSE)
   \/ \E t \in DOMAIN task : ArmLaunchFail(t)
   \/ \E w \in DOMAIN srv : LoseWorker(w, TRUE) \/ LoseWorker(w, FALSE)
+  \/ TimeTick
 
 Spec == Init /\ [][Next]_mvars
 
